@@ -40,8 +40,11 @@ AInit == [m |-> [k \in Keys |-> None],            \* generic cache: key -> bound
           stale |-> [k \in Keys |-> 0],           \* deviation: deleted bytes possibly left in the cache
           toks |-> [k \in Keys |-> {}]]           \* value tokens of Set calls invoked so far
 
+\* what a reader of a file that is being truncated / rewritten in place can see: chunks written for that key by
+\* calls invoked so far, zero-filled holes, and torn chunks (k = "?": checksum mismatch or short tail) - never an
+\* intact chunk of another key
 Fragments(A, k, chunks) ==
-  \A i \in 1..Len(chunks) : chunks[i] = Hole \/ (chunks[i].k = k /\ chunks[i].v \in A.toks[k])
+  \A i \in 1..Len(chunks) : chunks[i] = Hole \/ chunks[i].k = "?" \/ (chunks[i].k = k /\ chunks[i].v \in A.toks[k])
 
 Reject(A) == [ok |-> FALSE, st |-> A, used |-> {}]
 Accept(A, u) == [ok |-> TRUE, st |-> A, used |-> u]
@@ -81,10 +84,13 @@ Lin(A, pers, op, res, others) ==
     [] OTHER -> Reject(A)
 
 \* a data-race report / runtime crash is never acceptable on the intended design
+\* a, b = the two conflicting accesses: innermost pithos frame [pkg, fn], or pkg = "client" when the access is
+\* made by the caller itself (reading the bytes handed out by Get: the value is published through the racy map)
 RaceExplained(pers, a, b) ==
-  /\ Dev("D-C19-inmem-map-race") /\ pers = "mem"
-  /\ a.pkg = "cache/persistor/inmemory" /\ b.pkg = "cache/persistor/inmemory"
-  /\ (a.fn \in {"Store", "Remove"} \/ b.fn \in {"Store", "Remove"})      \* the calls made outside mu
+  LET Unsynced(x) == x.pkg = "cache/persistor/inmemory" /\ x.fn \in {"Store", "Remove"}   \* called outside mu
+      Related(x) == x.pkg \in {"cache/persistor/inmemory", "client"}
+  IN /\ Dev("D-C19-inmem-map-race") /\ pers = "mem"
+     /\ (Unsynced(a) /\ Related(b)) \/ (Unsynced(b) /\ Related(a))
 \* site = innermost pithos frame of the crashing goroutine, frames = all its pithos frames ("pkg.fn")
 CrashExplained(pers, kind, site, frames) ==
   \/ /\ kind = "concurrent-map" /\ Dev("D-C19-inmem-map-race") /\ pers = "mem"
